@@ -262,9 +262,11 @@ def special_preprocessor_lanes(ctx):
     Xf = np.array(rows, dtype=float)
     pre = (lambda table: (lambda idx: np.array([table[int(i)] for i in idx])))(rows_i)
     for nm, cls, width in (('ITML', ITML, 2), ('SCML', SCML, 3), ('LSML', LSML, 4)):
-      idx = np.column_stack([rng.integers(0, 10, size=16)] + [rng.integers(0, 24, size=16) for _ in range(width - 1)])   # column 0: integer rows only
-      if width == 2:
-        idx[:, 1] = np.where(idx[:, 1] == idx[:, 0], (idx[:, 1] + 11) % 24, idx[:, 1])
+      # column 0: integer rows only; the points of a tuple are distinct (no collapsed pair inside a tuple)
+      idx = np.array([[int(rng.integers(0, 10))] + [0] * (width - 1) for _ in range(16)])
+      for r_ in idx:
+        others = [k for k in range(24) if k != r_[0]]
+        r_[1:] = rng.choice(others, size=width - 1, replace=False)
       ctx.count('mixed_dtype_columns', 1)
       kw = dict(max_iter=10) if nm != 'SCML' else dict(max_iter=50, output_iter=10, n_basis=8, random_state=0)
       extra = (np.where(np.arange(16) % 2 == 0, 1, -1),) if width == 2 else ()
